@@ -285,3 +285,23 @@ pub unsafe extern "C" fn pread64(fd: c_int, buf: *mut c_void, n: size_t, off: of
     }
     r
 }
+
+
+// ---- flock: passed through; the calling thread can ask for its next calls to fail with a given errno (a lock
+// service that is unavailable, ENOLCK, as opposed to a lock that is held, EWOULDBLOCK)
+thread_local! {
+    pub static FLOCK_FAULT: std::cell::Cell<i32> = const { std::cell::Cell::new(0) };
+}
+pub static FLOCK_FAULTS_FIRED: AtomicU32 = AtomicU32::new(0);
+
+#[cfg(not(miri))]
+#[unsafe(no_mangle)]
+pub unsafe extern "C" fn flock(fd: c_int, op: c_int) -> c_int {
+    let e = FLOCK_FAULT.with(|c| c.get());
+    if e != 0 && (op & libc::LOCK_UN) == 0 {
+        FLOCK_FAULTS_FIRED.fetch_add(1, Ordering::Relaxed);
+        unsafe { set_errno(e) };
+        return -1;
+    }
+    unsafe { libc::syscall(libc::SYS_flock, fd, op) as c_int }
+}
